@@ -189,6 +189,38 @@ Definition use_key_eqb (a b : use_key) : bool :=
 Definition all_uses_classified (tbl : list (use_key * use_class)) (uses : list use_key) : bool :=
   forallb (fun u => existsb (fun e => use_key_eqb (fst e) u) tbl) uses.
 
+(** ** Process-global state.  A package-level variable written during execution outlives the block and
+    is empty (compiled-in value) again in a restarted process.  (package dir, variable, type kind,
+    writing sites) as generated; each must be classified. *)
+Inductive global_class :=
+| GRefreshed (why : string)       (* fully rewritten from chain state before it is read in every block *)
+| GConstAfterInit (why : string)  (* written only by set-up code that runs identically in every process *)
+| GNotObservable (why : string)   (* recycling / publication: contents never reach results *)
+| GOutOfModel (why : string)      (* WASM runtime: outside every model here *)
+| GFinding (cls : string).        (* results depend on what the process has seen: known-finding class *)
+
+Definition global_key := (string * string * string * string)%type.
+Definition global_key_eqb (a b : global_key) : bool :=
+  let '(p1, n1, k1, w1) := a in let '(p2, n2, k2, w2) := b in
+  String.eqb p1 p2 && String.eqb n1 n2 && String.eqb k1 k2 && String.eqb w1 w2.
+Definition all_globals_classified (tbl : list (global_key * global_class)) (gs : list global_key) : bool :=
+  forallb (fun g => existsb (fun e => global_key_eqb (fst e) g) tbl) gs.
+Definition global_finding_classes (tbl : list (global_key * global_class)) : list string :=
+  flat_map (fun e => match snd e with GFinding c => [c] | _ => [] end) tbl.
+
+(** A10 (FINDING). tx_handler.go refreshGlobalParam on the process-global neovm.GAS_TABLE: for every key,
+    `if n != -1 && ps.Value != "" { pu, err := strconv.ParseUint(..); if err == nil { GAS_TABLE.Store(key, pu) } }`
+    -- an entry is overwritten only when the on-chain parameter exists and parses; otherwise it keeps
+    whatever THIS PROCESS stored earlier (or the compiled-in default).  One key: [cur] the table entry,
+    [p] the on-chain value at this block (None: absent, empty or not a number). *)
+Definition refresh_entry (cur : N) (p : option N) : N := match p with Some v => v | None => cur end.
+(** the entry in a process that started with the compiled-in default [d] and has executed blocks under
+    the successive on-chain values [seen] *)
+Definition table_after (d : N) (seen : list (option N)) : N := fold_left refresh_entry seen d.
+(** the repair: fall back to the default, not to the previous content *)
+Definition refresh_entry_repaired (d : N) (_cur : N) (p : option N) : N := match p with Some v => v | None => d end.
+Definition table_after_repaired (d : N) (seen : list (option N)) : N := fold_left (refresh_entry_repaired d) seen d.
+
 (** * Part C -- block execution by the two node roles *)
 
 (** One signature set of a transaction, as far as addresses are concerned.
